@@ -28,6 +28,9 @@ def run_target(job):
     res = {'key': key, 'module': module, 'status': 'error', 'obligations': 0, 'proved': 0, 'failed': [], 'secs': 0.0,
            'by_backend': {}, 'sample': [], 'canaries': 0}
     try:
+        import resource
+        lim = int(os.environ.get('VERIF_PYVC_MEM_GB', '10')) << 30          # a runaway solver call must not take the machine down: it fails (undecided) instead
+        resource.setrlimit(resource.RLIMIT_AS, (lim, lim))
         from pyvc.engine import Engine, Unsupported
         from pyvc.solve import discharge, summary, concretize
         mod = importlib.import_module(module)
@@ -88,7 +91,8 @@ def verify(jobs, nproc=16):
     tmo = int(os.environ.get('VERIF_SOLVER_TIMEOUT_MS', '10000'))
     full = [(m, k, repo, tmo) for m, k in jobs]
     if not full: return []
-    with ProcessPoolExecutor(max_workers=min(nproc, len(full))) as ex:
+    # one fresh process per function: no z3 / module state is shared between proofs, and the address-space limit below applies to each of them
+    with ProcessPoolExecutor(max_workers=min(nproc, len(full)), max_tasks_per_child=1) as ex:
         return list(ex.map(run_target, full))
 
 
